@@ -227,7 +227,7 @@ theorem scrypt7_roundtrip (p : Parsed) (h : Scrypt7WF p) : resBind (scryptRender
   let params := r6 ++ (encodeInt h64 b 30 ++ (encodeInt h64 pp 30 ++ s))
   have hrender : scryptRender ⟨IDENT_7, some (r : Int), some s, some c, scryptExtra b pp⟩ =
       .ok (IDENT_7 ++ (params ++ DOLLAR :: encodeBytes h64 c)) := by
-    simp [scryptRender, hne, extraNat, scryptExtra, natField, List.find?, hasc, e6, eb, ep, resBind, params, r6]
+    simp [scryptRender, hne, extraNat, scryptExtra, natField, List.find?, hasc, e6, eb, ep, resBind, params, r6, hsd]
   rw [hrender]
   simp only [resBind]
   unfold scryptParse
